@@ -58,7 +58,7 @@ ORCH_MOD = "orchestrator"  # module name given to nextflow/scripts/batchie.py
 class Repo:
     def __init__(self, root=None, overrides=None):
         self.root = root or repo_root()
-        self.overrides = overrides or {}
+        self._text_overrides = overrides or {}
         self.modules = {}       # modname -> ast.Module
         self.paths = {}         # modname -> path
         self.sources = {}       # modname -> text
@@ -84,7 +84,7 @@ class Repo:
         if os.path.exists(orch):
             files.append((ORCH_MOD, orch))
         for rel, p in files:
-            text = self.overrides.get(rel)
+            text = self._text_overrides.get(rel)
             if text is None:
                 text = open(p, encoding="utf-8").read()
             try:
